@@ -27,7 +27,7 @@ def add(kind, siz, tiers, maxm=4):
         UNITS.append(U("%s%dm%d_%s" % (kind, siz, maxm, op), "seq.c", "h_" + op, level="B", functions=fns, replay=RP, tiers=tiers,
                        bound=("capacity <= %d" if kind == "vec" else "capacity 1 or %d") % maxm + " before the operation, element size %d; indices/counts unbounded" % siz,
                        defines=["SIZ=%d" % siz, "MAXM=%d" % maxm] + (["SEQ_BUF"] if kind == "buf" else []),
-                       unwind=24 + maxm * siz + 3, timeout=300,
+                       unwind=max(24 + maxm * siz, 8 * siz) + 3, timeout=600,
                        unwindset=[("a_swap.0", 4 * siz + 2), ("a_vec_setm.0", 8), ("a_vec_setn.0", 8), ("a_buf_setn.0", 8), ("a_vec_sort_fore.0", 5), ("a_vec_sort_fore.1", 6), ("a_vec_sort_back.0", 5), ("a_vec_sort_back.1", 6), ("a_vec_push_sort.0", 5), ("a_buf_sort_fore.0", 5), ("a_buf_sort_fore.1", 6), ("a_buf_sort_back.0", 5), ("a_buf_sort_back.1", 6), ("a_buf_push_sort.0", 5), ("a_vec_store.0", 4), ("a_buf_store.0", 4), ("a_vec_erase.0", 6), ("a_buf_erase.0", 6)], min_obl=5, cbmc=["--object-bits", "10"], cost=30))
 add("vec", 2, ("quick", "thorough"), 3)
 add("buf", 2, ("quick", "thorough"), 3)
